@@ -9,6 +9,7 @@
 #undef private
 #include "mv_prog.h"
 #include <string.h>
+#include <algorithm>
 using namespace photon;
 static const uint64_t TMO = 40, LONG = 1000000;
 
@@ -20,6 +21,7 @@ struct St {
     bool begun[16] = {false}, returned[16] = {false}, owed_all[16] = {false}, timed[16] = {false};
     int never_woken = 0;
     int ret[16]; int owed_one = 0; std::string log; bool woken[16] = {false};
+    int pending_one = 0;       // notify_one notifiers that have taken their snapshot (under the lock) but not yet notified: each may take one of the waiters a later notifier counted
 };
 static St* G;
 static void LOCK() { if (G->use_mutex) { if (G->m.lock() != 0) pmc_violation("user-lock-failed", "mutex lock failed"); } else G->s.lock(); }
@@ -56,7 +58,7 @@ static void body(mvprog::PT& p) {
                 while (!G->pred) { G->begun[me] = true; G->woken[me] = false; r = WAIT(Timeout()); if (r != 0) break; }
                 G->begun[me] = true; G->returned[me] = true;
             } else {
-                G->begun[me] = true; G->timed[me] = (op == 'T');
+                G->begun[me] = true; G->timed[me] = (op == 'T'); pmc_log("  [+%llu] T%d %c begins to wait", (unsigned long long)(mv_now() - MV_T0), me, op);
                 if (op == 'T') mv_register_deadline(mv_now() + TMO);
                 errno = 0;
                 // the "untimed" single-shot waiter waits 1 s of virtual time: a legitimately missed notification then ends the run
@@ -73,7 +75,7 @@ static void body(mvprog::PT& p) {
                     UNLOCK();
                     continue;
                 }
-                G->returned[me] = true;
+                G->returned[me] = true; pmc_log("  [+%llu] T%d wait returned %d", (unsigned long long)(mv_now() - MV_T0), me, r);
             }
             if (!HELD()) pmc_violation("wait-returned-without-lock", "wait() returned %d to thread %d but the lock is not held", r, me);
             G->ret[me] = r;
@@ -90,7 +92,7 @@ static void body(mvprog::PT& p) {
         bool hold = (op == 'h');
         bool inside = (op == 'n' || op == 'a' || hold), all = (op == 'A' || op == 'a');
         int expect = 0;
-        if (op != 'u') { LOCK(); G->pred = true; expect = snapshot(all); if (!inside) UNLOCK(); }
+        if (op != 'u') { LOCK(); G->pred = true; expect = snapshot(all); if (!all) { expect = std::max(0, expect - G->pending_one); G->pending_one++; } pmc_log("  [+%llu] T%d %c took the lock: expect=%d", (unsigned long long)(mv_now() - MV_T0), me, op, expect); if (!inside) UNLOCK(); }
         else expect = snapshot(false, true);
         if (all) {
             int n = G->cv.notify_all();
@@ -98,6 +100,8 @@ static void body(mvprog::PT& p) {
             if (n < expect) pmc_violation("notify_all-count", "notify_all() returned %d but %d waiter(s) were waiting when the notifier took the lock", n, expect);
         } else {
             thread* t = G->cv.notify_one();
+            if (op != 'u') G->pending_one--;
+            { int who = -1; if (t) for (auto& q : G->prog.pts) if (q.th == t) who = q.idx; pmc_log("  [+%llu] T%d notify_one -> %d", (unsigned long long)(mv_now() - MV_T0), me, who); }
             if (t) for (auto& q : G->prog.pts) if (q.th == t) G->woken[q.idx] = true;
             if (!t && expect > 0 && op != 'u') pmc_violation("notify_one-null", "notify_one() returned null although %d waiter(s) were waiting when the notifier took the lock", expect);
         }
